@@ -22,7 +22,9 @@ import (
 // Per rule: emptiness of L(compiled) ∩ complement("lower(u) contains
 // shortcut"), decided on the product (compiled DFA x KMP automaton).
 
-var c05RegexTokens = []string{"ab", "cd", "e1", "c", `\d`, `\w`, `\s`, `\.`, `\/`, `\x41`, ".", "[ab]", "[^a]", "|", "(", ")", "*", "+", "{0,1}", "{1,2}", `\b`}
+var c05RegexTokens = []string{"ab", "cd", "e1", "c", `\d`, `\w`, `\s`, `\.`, `\/`, `\x41`, ".", "[ab]", "[^a]", "|", "(", ")", "*", "+", "{0,1}", "{1,2}", `\b`,
+	// groups next to an escaped backslash (text-level bracket handling and the parsed tree see them differently)
+	`\\(ab)`, `(cd\\)`, "{0,2}"}
 
 type c05Counters struct {
 	rules, withShortcut, nontrivial, states, transitions, witnesses, capHit, invalid atomic.Int64
